@@ -335,8 +335,61 @@ def unimpl_shard(i):
     return p
 
 
+def hard_texts():
+    """Lines built to make a careless lexer slow: long prefixes in front of an unbalanced quote, long runs of one character,
+    long comments. (arch, text)"""
+    out = []
+    long_name = "a_rather_long_name_for_the_greeting_message_of_this_program"
+    for arch, decl, ins in (("riscv", ".string", "addi x1, x0, 1"), ("toy", ".word", "INC")):
+        for n in (24, 40, 57):
+            nm = long_name[:n]
+            out.append((arch, f'.data\n        {nm}: {decl} "Hello, World\n.text\n{ins}\n'))
+            out.append((arch, f'{ins}   # {"x" * n} "unbalanced\n{ins} "{"y" * n}\n'))
+            out.append((arch, f'{ins}\n{" " * (4 * n)}{nm} "\n'))
+        out.append((arch, f'{ins} {"," * 200}\n'))
+        out.append((arch, f'{ins} {"(" * 120}{")" * 120}\n'))
+        out.append((arch, f'{"l" * 300}: {ins}\n{ins} # {"#" * 400}\n'))
+        out.append((arch, f'{ins}\n{"-" * 150}1\n'))
+        out.append((arch, f'{ins} {"0x" * 100}\n'))
+    return out
+
+
+HARD_LIMIT = 30
+
+
+def hard_case(k):
+    """The load runs in its own interpreter and is killed after HARD_LIMIT seconds: an in-process alarm cannot interrupt a
+    regular-expression or pyparsing call that never returns to the interpreter loop."""
+    import subprocess
+    from vf.engine import fresh
+    arch, text = hard_texts()[k]
+    try:
+        res = fresh.run_scenario([], ["rv_image" if arch == "riscv" else "toy_image", text], timeout=HARD_LIMIT)
+    except subprocess.TimeoutExpired:
+        return ("termination", f"{arch}: load_program({text[:90]!r}...) did not return within {HARD_LIMIT} s (own interpreter, killed)")
+    if "error" in res and res["error"] not in ("ParserSyntaxException", "ParserLabelException", "ParserVariableException", "ParserDirectiveException", "ParserOddImmediateException",
+                                               "DuplicateLabelException", "ParserException") and "Parser" not in res["error"] and "Label" not in res["error"]:
+        return ("untyped-error", f"{arch}: load_program({text[:90]!r}...) raised {res['error']}: {res.get('text', '')[:120]}")
+    return None
+
+
+def hard_shard(shard):
+    k = shard
+    p = Partial()
+    p.evaluations += 1
+    p.nontrivial += 1
+    p.counters["load-in-its-own-interpreter-with-a-kill-timeout"] += 1
+    d = hard_case(k)
+    if d:
+        p.violation(dict(oracle="load-error-typing", arch=hard_texts()[k][0], field=d[0]), dict(kind="hard", k=k), d[1], size=(k,))
+    return p
+
+
 def replay(case):
     k = case["kind"]
+    if k == "hard":
+        d = hard_case(case["k"])
+        return [(dict(oracle="load-error-typing", arch=hard_texts()[case["k"]][0], field=d[0]), d[1])] if d else []
     if k == "text-sequence":
         d = None
         for text in case["texts"]:
@@ -407,6 +460,11 @@ def run(ctx):
     t0 = time.time()
     part = pmap(fit_shard, list(range(len(fit_cases()))))
     ctx.space("does-not-fit", part, t0)
+    t0 = time.time()
+    part = pmap(hard_shard, list(range(len(hard_texts()))))
+    ctx.space("lexer-stress-lines-with-a-kill-timeout", part, t0, texts=len(hard_texts()), limit_s=HARD_LIMIT,
+              note="each load in its own interpreter, killed after the limit (an in-process watchdog cannot interrupt a call that never returns to the interpreter loop)")
+    ctx.require("load-in-its-own-interpreter-with-a-kill-timeout")
     t0 = time.time()
     nsym = len(alpha.hazard_alphabet(ctx.seed, True)) + 2
     shards = [(ctx.seed, L, f) for L in (1, 2, 3) for f in range(nsym)]
